@@ -181,16 +181,17 @@ def run(ck):
             _, st_t, _ = iglib.run_harness(exe, ops, timeout=limit)
             ck.search_case("prefix-refused-promptly")
             if st_t == "timeout" or _time.time() - t0 > limit:
+                # slow as a whole (possibly only a busy machine): it is a violation only if one prefix alone does not come back
                 slow = None
                 for c in cuts:
-                    t1 = _time.time()
-                    _, st1, _ = iglib.run_harness(exe, ["reset", "reqfile %s" % (wd / ("pre%d_%d.in" % (n, c)))] + state_ops(), timeout=5)
-                    if st1 == "timeout" or _time.time() - t1 > 2:
+                    _, st1, _ = iglib.run_harness(exe, ["reset", "reqfile %s" % (wd / ("pre%d_%d.in" % (n, c)))] + state_ops(), timeout=30)
+                    if st1 == "timeout":
                         slow = c
                         break
-                ck.violation("prefix-hang", "reading prefixes of a valid %d-byte file took more than %.0f s; the %s-byte prefix alone does not come back within seconds" % (len(data), limit, slow),
-                             {"full.in": data, "prefix.in": data[:slow] if slow is not None else b""}, "")
-                continue
+                if slow is not None:
+                    ck.violation("prefix-hang", "reading the %d-byte prefix of a valid %d-byte file does not come back within 30 s (a truncated file must be refused, not read on)" % (slow, len(data)),
+                                 {"full.in": data, "prefix.in": data[:slow]}, "")
+                    continue
             impl, st, err_, model = run_both(ck, exe, ops, timeout=900)
             diffs = iglib.diff_streams(ops, impl, model)
             if st != "ok":
